@@ -28,7 +28,7 @@ from plinio.cost import CostSpec, CostFn, params_bit
 from plinio.graph.inspection import shapes_dict
 from .graph import convert, mps_layer_map
 from .nn.module import MPSModule
-from .nn.qtz import MPSType
+from .nn.qtz import MPSType, MPSBaseQtz
 
 from .quant.quantizers import PACTAct, MinMaxWeight, QuantizerBias
 
@@ -232,13 +232,18 @@ class MPS(DNAS):
         :return: the precision-assignement found by the NAS
         :rtype: Dict[str, Dict[str, Any]]
         """
-        # conversion forces `eval()` on the inner model: restore its training status afterwards
+        # conversion forces `eval()` on the inner model and runs a forward pass through it, which
+        # re-samples the NAS coefficients: restore the training status and the coefficients sampled
+        # in the last "real" forward pass (on which the cost depends) afterwards
         training_status = [(m, m.training) for m in self.seed.modules()]
+        sampled = [(m, m.theta_alpha) for m in self.seed.modules() if isinstance(m, MPSBaseQtz)]
         try:
             mod, _, _ = convert(self.seed, self._input_example, 'export')
         finally:
             for m, status in training_status:
                 m.training = status
+            for m, theta_alpha in sampled:
+                m.theta_alpha = theta_alpha
         return mod
 
     def summary(self) -> Dict[str, Dict[str, Any]]:
